@@ -102,6 +102,14 @@ func spoilsOf(line []byte, full bool, r rng) []spoil {
 			}
 			out = append(out, spoil{s, fmt.Sprintf("%s field %s (columns %d-%d)", fill.name, w.Src, lo+1, hi), fill.name})
 		}
+		// a date column holding eight digits that name no day of the calendar
+		if kindOfConv(w.Conv) == 'D' && w.Width == 8 {
+			for _, d := range []string{"20200230", "20210229", "20200431"} {
+				s := cp()
+				copy(s[lo:hi], d)
+				out = append(out, spoil{s, fmt.Sprintf("impossible date %s in field %s (columns %d-%d)", d, w.Src, lo+1, hi), "impossible-date"})
+			}
+		}
 		// a VALID two-byte UTF-8 character in a text field: the record keeps its byte length but holds one
 		// character less than its layout (decoders that count characters see a short record)
 		if w.Width >= 2 && kindOfConv(w.Conv) == 'S' {
@@ -152,7 +160,11 @@ func runC18(cfg *config) *Report {
 		good := strings.Split(dumpFile(&gf), "~")
 		for k := range lines {
 			for _, sp := range spoilsOf(lines[k], cfg.tier == "thorough", r) {
-				if sp.cls != "short" && sp.cls != "short52" && sp.cls != "unknown-type" && !standaloneInvalid(sp.line) {
+				// whether a spoiled record is invalid on its own is asked of the implementation's own record validation -
+				// except for the classes whose point is that this very validation may be what is broken: those are
+				// judged by the model (regenerated rules, calendar arithmetic of its own) below
+				byModel := sp.cls == "impossible-date"
+				if sp.cls != "short" && sp.cls != "short52" && sp.cls != "unknown-type" && !byModel && !standaloneInvalid(sp.line) {
 					rep.count("spoil-still-valid")
 					continue
 				}
@@ -225,6 +237,11 @@ func runC18(cfg *config) *Report {
 		kind := "??"
 		if len(c.lines[c.k]) >= 2 {
 			kind = string(c.lines[c.k][:2])
+		}
+		if rs.err == nil && c.sp.cls == "impossible-date" && strings.HasPrefix(got[i], "ok") {
+			// the model accepts the record too (the column is not validated: the value reads as 'no date')
+			rep.count("spoil-still-valid-by-model")
+			continue
 		}
 		if rs.err == nil {
 			rep.violate(Violation{Key: "C18:accepted:" + kind + ":" + c.sp.cls, What: "a file with one invalid record was read without error (" + c.sp.desc + ")",
